@@ -837,6 +837,545 @@ static void cyc_run(uint64_t idx)
 }
 VF_SUITE(cyclic, cyc_count, cyc_run)
 
+// ============================================================================================
+// 4. histories in which re-initialising members are ordinary operations
+//    (resize up/down/same, reset, clear on igris::ring; ring_init with another size/buffer on the C ring;
+//    cyclic_buffer::resize; ring_counter_init) followed by continued use. Capacity of the reference follows
+//    DESIGN 3a: ring(n) / resize(n) = n usable slots, the ring is empty afterwards; reset()/clear() empty the
+//    ring and keep the capacity.
+// ============================================================================================
+static int hist_len() { return vf::thorough() ? 6 : 5; }
+static uint64_t ipow(uint64_t b, int e)
+{
+    uint64_t r = 1;
+    while (e-- > 0)
+        r *= b;
+    return r;
+}
+
+// ---- igris::ring<Sample>
+static const unsigned TCAPS[4] = {1, 2, 3, 5}; // resize targets
+enum
+{
+    TH_PUSH,
+    TH_EMPLACE,
+    TH_POP,
+    TH_HEAD, // write head_place() directly, then move_head_one()
+    TH_TAIL, // move_tail_one()
+    TH_RESIZE0,
+    TH_RESIZE1,
+    TH_RESIZE2,
+    TH_RESIZE3,
+    TH_RESET,
+    TH_CLEAR,
+    TH_N
+};
+static const char *THNAME[TH_N] = {"push", "emplace", "pop", "head_place+move_head_one", "move_tail_one", "resize(1)", "resize(2)", "resize(3)", "resize(5)", "reset", "clear"};
+struct TypedHist
+{
+    std::unique_ptr<igris::ring<Sample>> rg;
+    std::unique_ptr<TypedChk> c;
+    std::string hist;
+    uint32_t id = 1;
+    // start: 0 ring(4); 1 ring(1); 2 ring() + resize(3); 3 ring(6) with traffic
+    explicit TypedHist(int start)
+    {
+        static const char *SN[4] = {"ring(4)", "ring(1)", "ring()+resize(3)", "ring(6)+4 push+2 pop"};
+        hist = SN[start];
+        unsigned n = start == 0 ? 4 : start == 1 ? 1 : start == 2 ? 3 : 6;
+        if (start == 2)
+        {
+            rg.reset(new igris::ring<Sample>());
+            rg->resize(3);
+        }
+        else
+            rg.reset(new igris::ring<Sample>((int)n));
+        c.reset(new TypedChk(*rg, n, hist.c_str()));
+        c->check("construction");
+        if (start == 3)
+        {
+            for (int i = 0; i < 4; i++)
+                c->push(id++, false);
+            c->pop();
+            c->pop();
+        }
+    }
+    void recap(unsigned n)
+    {
+        c->n = n;
+        c->full_getlast = n <= 16;
+        c->model.clear();
+    }
+    void op(int o)
+    {
+        hist += ' ';
+        hist += THNAME[o];
+        c->mode = hist.c_str();
+        if (vf::verbose())
+            printf("  %s\n", THNAME[o]);
+        bool full = c->model.size() == c->n, empty = c->model.empty();
+        switch (o)
+        {
+        case TH_PUSH:
+        case TH_EMPLACE:
+            if (full)
+            { // push on a full typed ring is outside the contract: the ring must report that it is full
+                if (rg->room() != 0)
+                    vf::fail("ring<T>:room", "%s | full ring (capacity %u) reports room()=%u", hist.c_str(), c->n, rg->room());
+                VF_OK("ring<T> history: a full ring reports room()==0");
+            }
+            else
+                c->push(id++, o == TH_EMPLACE);
+            break;
+        case TH_POP:
+            if (!empty)
+                c->pop();
+            break;
+        case TH_HEAD:
+            if (!full)
+            {
+                Sample s = mk(id++);
+                rg->head_place() = s;
+                rg->move_head_one();
+                c->model.push_back(s);
+                c->check("move_head_one");
+            }
+            break;
+        case TH_TAIL:
+            if (!empty)
+            {
+                rg->move_tail_one();
+                c->model.pop_front();
+                c->check("move_tail_one");
+            }
+            break;
+        case TH_RESIZE0:
+        case TH_RESIZE1:
+        case TH_RESIZE2:
+        case TH_RESIZE3:
+            rg->resize(TCAPS[o - TH_RESIZE0]);
+            recap(TCAPS[o - TH_RESIZE0]);
+            c->check("resize");
+            VF_OK("ring<T> history: after resize(k) the ring is empty with room()==k");
+            break;
+        case TH_RESET:
+            rg->reset();
+            c->model.clear();
+            c->check("reset");
+            VF_OK("ring<T> history: after reset() the ring is empty with room()==capacity");
+            break;
+        case TH_CLEAR:
+            rg->clear();
+            c->model.clear();
+            c->check("clear");
+            break;
+        }
+    }
+};
+static uint64_t thist_count() { return 4ull * TH_N * TH_N; }
+static void thist_run(uint64_t idx)
+{
+    int start = idx % 4, a = (idx / 4) % TH_N, b = (idx / 4 / TH_N) % TH_N;
+    vf::cls("typed-history");
+    int rest = hist_len() - 2;
+    uint64_t total = ipow(TH_N, rest);
+    for (uint64_t h = 0; h < total; h++)
+    {
+        TypedHist t(start);
+        t.op(a);
+        t.op(b);
+        uint64_t x = h;
+        for (int i = 0; i < rest; i++, x /= TH_N)
+            t.op((int)(x % TH_N));
+        // continued use: fill to the brim and drain
+        while (t.c->model.size() < t.c->n)
+            t.c->push(t.id++, false);
+        if (t.rg->room() != 0)
+            vf::fail("ring<T>:room", "%s | filled to capacity %u, room()=%u", t.hist.c_str(), t.c->n, t.rg->room());
+        while (!t.c->model.empty())
+            t.c->pop();
+        if (h == 7 && idx == 150 && vf::want_sample())
+            vf::sample("typed history: %s, then fill to capacity and drain", t.hist.c_str());
+    }
+    VF_OK("ring<T> history: every short history over push/pop/moves/resize/reset/clear, then fill and drain");
+    vf::count_bulk(total, total);
+}
+VF_SUITE(typed_history, thist_count, thist_run)
+
+static uint64_t thrand_count() { return vf::thorough() ? 20000 : 300; }
+static void thrand_run(uint64_t idx)
+{
+    vf::cls("typed-history-random");
+    vf::Rng rg(vf::seed(), 0xC031, idx);
+    TypedHist t((int)(idx % 4));
+    uint64_t h = idx % 4;
+    for (int step = 0; step < 300; step++)
+    {
+        int r = (int)rg.below(100), o;
+        if (r < 30)
+            o = rg.chance(1, 2) ? TH_PUSH : TH_EMPLACE;
+        else if (r < 50)
+            o = TH_POP;
+        else if (r < 62)
+            o = TH_HEAD;
+        else if (r < 72)
+            o = TH_TAIL;
+        else if (r < 84)
+        { // resize to any capacity 1..12 (up, down, same)
+            unsigned k = 1 + (unsigned)rg.below(12);
+            t.hist += " resize(" + std::to_string(k) + ")";
+            if (t.hist.size() > 700)
+                t.hist.erase(0, t.hist.size() - 500);
+            t.c->mode = t.hist.c_str();
+            t.rg->resize(k);
+            t.recap(k);
+            t.c->check("resize");
+            h = vf::mix(h, 100 + k);
+            continue;
+        }
+        else if (r < 94)
+            o = TH_RESET;
+        else
+            o = TH_CLEAR;
+        if (t.hist.size() > 700)
+            t.hist.erase(0, t.hist.size() - 500);
+        t.op(o);
+        h = vf::mix(h, o);
+    }
+    vf::count_case(h, true);
+}
+VF_SUITE(typed_history_random, thrand_count, thrand_run)
+
+// ---- igris::ring<char>: bulk write/read with rejection on a full ring, across resize / reset / clear
+enum
+{
+    CH_W1,
+    CH_W9, // longer than any capacity used: must stop at full
+    CH_R1,
+    CH_R9,
+    CH_RESIZE1,
+    CH_RESIZE2,
+    CH_RESIZE4,
+    CH_RESET,
+    CH_CLEAR,
+    CH_N
+};
+static const char *CHNAME[CH_N] = {"write(1)", "write(9)", "read(1)", "read(9)", "resize(1)", "resize(2)", "resize(4)", "reset", "clear"};
+struct CharHist
+{
+    std::unique_ptr<igris::ring<char>> rg;
+    std::deque<uint8_t> model;
+    unsigned n;
+    uint8_t ctr = 0xFC;
+    std::string hist;
+    explicit CharHist(int start)
+    {
+        static const char *SN[3] = {"ring<char>(5)", "ring<char>(1)", "ring<char>()+resize(3)"};
+        hist = SN[start];
+        n = start == 0 ? 5 : start == 1 ? 1 : 3;
+        if (start == 2)
+        {
+            rg.reset(new igris::ring<char>());
+            rg->resize(3);
+        }
+        else
+            rg.reset(new igris::ring<char>((int)n));
+        counts("construction");
+    }
+    void counts(const char *op)
+    {
+        if (rg->avail() != model.size() || rg->room() != n - model.size() || rg->avail() + rg->room() != n)
+            vf::fail("ring<char>:counts", "%s | after %s: avail=%u room=%u, reference %zu of capacity %u", hist.c_str(), op, rg->avail(), rg->room(), model.size(), n);
+        if (rg->head_index() < 0 || rg->head_index() > (int)n || rg->tail_index() < 0 || rg->tail_index() > (int)n)
+            vf::fail("ring<char>:index-range", "%s | after %s: head=%d tail=%d capacity %u", hist.c_str(), op, rg->head_index(), rg->tail_index(), n);
+        if (rg->empty() != model.empty())
+            vf::fail("ring<char>:empty", "%s | after %s: empty()=%d reference %zu", hist.c_str(), op, (int)rg->empty(), model.size());
+        VF_OK("ring<char> history: avail+room == capacity, counts == reference after every op");
+        vf::state(vf::mix(vf::mix(7, n + 1), (uint64_t)rg->head_index() << 20 | rg->tail_index()));
+    }
+    void write(unsigned k)
+    {
+        std::vector<uint8_t> d(k);
+        for (auto &x : d)
+            x = ctr++;
+        vf::Exact src(d.data(), k, 1);
+        size_t room = n - model.size();
+        int h0 = rg->head_index(), t0 = rg->tail_index();
+        size_t w = rg->write(src.cc(), k);
+        if (w != (k < room ? k : room))
+            vf::fail(room == 0 ? "ring<char>:write:full-not-rejected" : "ring<char>:write:count", "%s | write(%u) = %zu, room was %zu of capacity %u", hist.c_str(), k, w, room, n);
+        if (room == 0 && (rg->head_index() != h0 || rg->tail_index() != t0))
+            vf::fail("ring<char>:write:full-not-rejected", "%s | rejected write moved head/tail", hist.c_str());
+        if (room == 0)
+            VF_OK("ring<char> history: a full ring rejects writes, state unchanged");
+        for (size_t i = 0; i < w; i++)
+            model.push_back(d[i]);
+    }
+    void read(unsigned k)
+    {
+        vf::Exact dst(nullptr, k, 0);
+        size_t av = model.size();
+        size_t got = rg->read(dst.c(), k);
+        if (got != (k < av ? k : av))
+            vf::fail("ring<char>:read:count", "%s | read(%u) = %zu, avail was %zu", hist.c_str(), k, got, av);
+        for (size_t i = 0; i < got; i++)
+        {
+            if (dst.p[i] != model.front())
+                vf::fail("ring<char>:read:data", "%s | byte %zu: %02x, reference %02x", hist.c_str(), i, dst.p[i], model.front());
+            model.pop_front();
+        }
+        VF_OK("ring<char> history: data out == data in (FIFO)");
+    }
+    void op(int o)
+    {
+        hist += ' ';
+        hist += CHNAME[o];
+        if (hist.size() > 700)
+            hist.erase(0, hist.size() - 500);
+        if (vf::verbose())
+            printf("  %s\n", CHNAME[o]);
+        switch (o)
+        {
+        case CH_W1:
+            write(1);
+            break;
+        case CH_W9:
+            write(9);
+            break;
+        case CH_R1:
+            read(1);
+            break;
+        case CH_R9:
+            read(9);
+            break;
+        case CH_RESIZE1:
+        case CH_RESIZE2:
+        case CH_RESIZE4:
+            n = o == CH_RESIZE1 ? 1 : o == CH_RESIZE2 ? 2 : 4;
+            rg->resize(n);
+            model.clear();
+            break;
+        case CH_RESET:
+            rg->reset();
+            model.clear();
+            break;
+        case CH_CLEAR:
+            rg->clear();
+            model.clear();
+            break;
+        }
+        counts(CHNAME[o]);
+    }
+};
+static uint64_t chist_count() { return 3ull * CH_N * CH_N; }
+static void chist_run(uint64_t idx)
+{
+    int start = idx % 3, a = (idx / 3) % CH_N, b = (idx / 3 / CH_N) % CH_N;
+    vf::cls("typed-char-history");
+    int rest = hist_len() - 2;
+    uint64_t total = ipow(CH_N, rest);
+    for (uint64_t h = 0; h < total; h++)
+    {
+        CharHist t(start);
+        t.op(a);
+        t.op(b);
+        uint64_t x = h;
+        for (int i = 0; i < rest; i++, x /= CH_N)
+            t.op((int)(x % CH_N));
+        t.op(CH_W9); // continued use: fill to the brim, one more write must be rejected, drain
+        t.op(CH_W1);
+        t.op(CH_R9);
+    }
+    VF_OK("ring<char> history: every short history over write/read/resize/reset/clear, then fill, reject, drain");
+    vf::count_bulk(total, total);
+    if (idx < 300)
+    { // plus one random long history per case
+        vf::Rng rg(vf::seed(), 0xC032, idx);
+        CharHist t(start);
+        for (int step = 0; step < 400; step++)
+        {
+            int r = (int)rg.below(100);
+            t.op(r < 25 ? CH_W1 : r < 40 ? CH_W9 : r < 60 ? CH_R1 : r < 70 ? CH_R9 : r < 76 ? CH_RESIZE1 : r < 82 ? CH_RESIZE2 : r < 88 ? CH_RESIZE4 : r < 95 ? CH_RESET : CH_CLEAR);
+        }
+    }
+}
+VF_SUITE(typed_char_history, chist_count, chist_run)
+
+// ---- C ring: ring_init on a used ring with another size and another (exactly sized) buffer
+static const unsigned CSIZES[3] = {2, 3, 5};
+enum
+{
+    CI_PUTC,
+    CI_GETC,
+    CI_WRITE9,
+    CI_READ9,
+    CI_MOVE_HEAD2,
+    CI_MOVE_TAIL2,
+    CI_INIT0,
+    CI_INIT1,
+    CI_INIT2,
+    CI_CLEAN,
+    CI_N
+};
+static void cinit_op(CRing &ring, int o, uint8_t &ctr, bool mirror)
+{
+    uint8_t d[9];
+    for (auto &x : d)
+        x = ctr++;
+    unsigned avail = (unsigned)ring.model.size(), room = ring.cap() - avail;
+    switch (o)
+    {
+    case CI_PUTC:
+        ring.apply(OP_PUTC, 0, d);
+        break;
+    case CI_GETC:
+        ring.apply(OP_GETC, 0, d);
+        break;
+    case CI_WRITE9:
+        ring.apply(OP_WRITE, 9, d);
+        break;
+    case CI_READ9:
+        ring.apply(OP_READ, 9, d);
+        break;
+    case CI_MOVE_HEAD2:
+        ring.apply(OP_MOVE_HEAD, room < 2 ? room : 2, d);
+        break;
+    case CI_MOVE_TAIL2:
+        ring.apply(OP_MOVE_TAIL, avail < 2 ? avail : 2, d);
+        break;
+    case CI_INIT0:
+    case CI_INIT1:
+    case CI_INIT2:
+    { // re-initialise the same ring_head for another size over a fresh buffer of exactly that size
+        unsigned ns = CSIZES[o - CI_INIT0];
+        ring.size = ns;
+        ring.buf.init(nullptr, ns, mirror ? 5 : 3, mirror);
+        ring_init(&ring.r, ns);
+        ring.model.clear();
+        if (ring.keep_trace)
+            ring.trace += " ring_init(size " + std::to_string(ns) + ")";
+        ring.check_state("init", ns);
+        VF_OK("cring history: ring_init with another size on a used ring gives an empty ring of that size");
+        break;
+    }
+    case CI_CLEAN:
+        ring.apply(OP_CLEAN, 0, d);
+        break;
+    }
+}
+static uint64_t cinit_count() { return 2ull * 3 * CI_N * CI_N; }
+static void cinit_run(uint64_t idx)
+{
+    bool mirror = idx & 1;
+    unsigned s0 = CSIZES[(idx / 2) % 3];
+    int a = (idx / 6) % CI_N, b = (idx / 6 / CI_N) % CI_N;
+    vf::cls("cring-reinit-history");
+    int rest = hist_len() - 2;
+    uint64_t total = ipow(CI_N, rest);
+    uint8_t ctr = 0xF7;
+    for (uint64_t h = 0; h < total; h++)
+    {
+        CRing ring(s0, mirror, true);
+        cinit_op(ring, a, ctr, mirror);
+        cinit_op(ring, b, ctr, mirror);
+        uint64_t x = h;
+        for (int i = 0; i < rest; i++, x /= CI_N)
+            cinit_op(ring, (int)(x % CI_N), ctr, mirror);
+        cinit_op(ring, CI_WRITE9, ctr, mirror); // continued use: fill, reject, drain
+        cinit_op(ring, CI_PUTC, ctr, mirror);
+        cinit_op(ring, CI_READ9, ctr, mirror);
+    }
+    vf::count_bulk(total, total);
+}
+VF_SUITE(cring_reinit_history, cinit_count, cinit_run)
+
+// ---- cyclic_buffer::resize and ring_counter_init as operations
+enum
+{
+    CY_PUSH,
+    CY_PUSH2,
+    CY_RESIZE1,
+    CY_RESIZE2,
+    CY_RESIZE3,
+    CY_RESIZE5,
+    CY_N
+};
+static uint64_t cyhist_count() { return 3ull * CY_N * CY_N; }
+static void cyhist_run(uint64_t idx)
+{
+    static const int CYS[4] = {1, 2, 3, 5};
+    int N0 = idx % 3 == 0 ? 1 : idx % 3 == 1 ? 3 : 4, a = (idx / 3) % CY_N, b = (idx / 3 / CY_N) % CY_N;
+    vf::cls("cyclic-history");
+    int rest = hist_len() - 1;
+    uint64_t total = ipow(CY_N, rest - 1);
+    uint32_t id = 1;
+    for (uint64_t h = 0; h < total; h++)
+    {
+        igris::cyclic_buffer<Sample> cb(N0);
+        ring_counter rc; // driven in lock step: init on resize, increment on push
+        ring_counter_init(&rc, N0);
+        int N = N0;
+        std::deque<Sample> model; // newest first
+        std::string hist = "cyclic_buffer(" + std::to_string(N0) + ")";
+        auto check = [&](const char *op) {
+            if (cb.size() != model.size())
+                vf::fail("cyclic_buffer:size", "%s | after %s: size()=%zu reference=%zu (capacity %d)", hist.c_str(), op, cb.size(), model.size(), N);
+            const igris::cyclic_buffer<Sample> &ccb = cb;
+            for (int i = 0; i < (int)model.size(); i++)
+                if (cb[i] != model[i] || ccb[i] != model[i])
+                    vf::fail("cyclic_buffer:index", "%s | after %s: [%d] has id=%u, %d-th previous sample is id=%u", hist.c_str(), op, i, cb[i].id, i, model[i].id);
+            if (cb.counter.counter < 0 || cb.counter.counter >= N || cb.counter.size != N)
+                vf::fail("cyclic_buffer:counter-range", "%s | after %s: counter=%d size=%d capacity %d", hist.c_str(), op, cb.counter.counter, cb.counter.size, N);
+            if (ring_counter_get(&rc) != cb.counter.counter)
+                vf::fail("ring_counter:lockstep", "%s | after %s: free-standing ring_counter at %d, buffer's at %d", hist.c_str(), op, ring_counter_get(&rc), cb.counter.counter);
+            for (int i = 0; i <= 2 * N; i++)
+                if (ring_counter_prev(&rc, i) != (int)mmod(ring_counter_get(&rc) - i, N) || ring_counter_last(&rc, i) != (int)mmod(ring_counter_get(&rc) - i, N))
+                    vf::fail("ring_counter:prev", "%s | after %s: size=%d counter=%d prev(%d)=%d", hist.c_str(), op, N, ring_counter_get(&rc), i, ring_counter_prev(&rc, i));
+            VF_OK("cyclic history: size(), [i], counter range == reference after every op incl. resize");
+            vf::state(vf::mix(vf::mix(8, N), (uint64_t)cb.counter.counter << 20 | model.size()));
+        };
+        auto op = [&](int o) {
+            static const char *NM[CY_N] = {"push", "push x2", "resize(1)", "resize(2)", "resize(3)", "resize(5)"};
+            hist += ' ';
+            hist += NM[o];
+            if (vf::verbose())
+                printf("  %s\n", NM[o]);
+            if (o <= CY_PUSH2)
+                for (int k = 0; k <= o; k++)
+                {
+                    Sample s = mk(id++);
+                    Sample ret = cb.push(s);
+                    ring_counter_increment(&rc, 1);
+                    if ((int)model.size() == N)
+                    {
+                        if (ret != model.back())
+                            vf::fail("cyclic_buffer:push:overwritten", "%s | push returned id=%u, overwritten sample is id=%u", hist.c_str(), ret.id, model.back().id);
+                        model.pop_back();
+                    }
+                    model.push_front(s);
+                    check("push");
+                }
+            else
+            {
+                N = CYS[o - CY_RESIZE1];
+                cb.resize(N);
+                ring_counter_init(&rc, N);
+                model.clear();
+                check("resize");
+            }
+        };
+        op(a);
+        op(b);
+        uint64_t x = h;
+        for (int i = 0; i < rest - 1; i++, x /= CY_N)
+            op((int)(x % CY_N));
+        for (int i = 0; i < N + 1; i++) // continued use: more than one full turn
+            op(CY_PUSH);
+    }
+    vf::count_bulk(total, total);
+}
+VF_SUITE(cyclic_history, cyhist_count, cyhist_run)
+
 extern "C" void vf_setup()
 {
     for (const char *c :
@@ -855,6 +1394,13 @@ extern "C" void vf_setup()
           "ring<char>: write/read counts and data == reference", "ring_counter: prev(i) == (counter-i) mod size, i in [0,3*size]",
           "ring_counter: last(no) == (counter-no) mod size", "ring_counter: increment wraps into [0,size)",
           "ring_counter: fixup_pos(p) == p mod size, p in [-3*size,3*size]", "cyclic_buffer: push on a full buffer returns the overwritten (oldest) sample",
-          "cyclic_buffer: size() == min(pushed, capacity)", "cyclic_buffer: [i] == i-th previous sample for every i < size()"})
+          "cyclic_buffer: size() == min(pushed, capacity)", "cyclic_buffer: [i] == i-th previous sample for every i < size()",
+          "ring<T> history: a full ring reports room()==0", "ring<T> history: after resize(k) the ring is empty with room()==k",
+          "ring<T> history: after reset() the ring is empty with room()==capacity",
+          "ring<T> history: every short history over push/pop/moves/resize/reset/clear, then fill and drain",
+          "ring<char> history: avail+room == capacity, counts == reference after every op", "ring<char> history: a full ring rejects writes, state unchanged",
+          "ring<char> history: data out == data in (FIFO)", "ring<char> history: every short history over write/read/resize/reset/clear, then fill, reject, drain",
+          "cring history: ring_init with another size on a used ring gives an empty ring of that size",
+          "cyclic history: size(), [i], counter range == reference after every op incl. resize"})
         vf::require(c);
 }
